@@ -342,6 +342,20 @@ def run_mesh_io(col):
         p3 = npmodel.to_obj(it.getattr(it.getattr(mc3, "meshes")[0], "points"))
         okz = p3.shape == (nn + 1, 3) and all(is_zero(P(p3[a, i]) - (pts[a, i] if i < dim else ZERO)) for a in range(nn + 1) for i in range(3))
         col.add("C20.O4", "read %s (dim=None)" % ct, "without a dimension the stored (zero-padded) coordinates are returned", okz, nontrivial=False)
+    # a file with several cell blocks: cellblock selects exactly that block (0 is a block number, not "all")
+    MC = it.get("felupe.mesh._container:MeshContainer")
+    ptsq = npmodel.array([[0, 0], [1, 0], [2, 0], [0, 1], [1, 1], [2, 1]], dtype=npmodel.DType("float"))
+    qa = it.call(Mesh, [ptsq, np.array([[0, 1, 4, 3]]), "quad"], {})
+    tb = it.call(Mesh, [ptsq, np.array([[1, 2, 5], [1, 5, 4]]), "triangle"], {})
+    mio = it.call_method(it.call(MC, [[qa, tb]], dict(merge=True)), "as_meshio", [], dict(combined=False))
+    it.call_method(mio, "write", ["two_blocks.vtk"])
+    for cb, want in ((None, ["quad", "triangle"]), (0, ["quad"]), (1, ["triangle"])):
+        def chk(cb=cb, want=want):
+            mcr = it.call(read, ["two_blocks.vtk"], dict(cellblock=cb, dim=2))
+            ms = it.getattr(mcr, "meshes")
+            types = [it.getattr(m, "cell_type") for m in ms]
+            return types == want, "mesh/_read.py read: cell types %s, expected %s" % (types, want)
+        col.check("C20.O4", "read cellblock=%s" % (cb,), "cellblock=None reads every cell block of the file, an integer exactly that block (block 0 included)", chk)
     finish_info(col, it)
 
 
@@ -378,6 +392,24 @@ def run_container(col):
         npts = cpo.shape[0]
         col.add("C20.O5", "MeshContainer(merge=%s) cells" % merge, "cell ids are shifted by the number of points appended before (and remapped when merging): every corner keeps its coordinates",
                 not bad and npts == (6 if merge else 8), "points %d bad %s" % (npts, bad))
+    # merge, then append: the container's point array is the merged one the meshes refer to, and a later append keeps every corner
+    pc = npmodel.array([[2, 0], [3, 0], [3, 1], [2, 1]], dtype=F)
+    c3 = it.call(Mesh, [pc, np.array([[0, 1, 2, 3]]), "quad"], {})
+    mcm = it.call(MC, [[a, b]], dict(merge=True))
+    it.call_method(mcm, "append", [c3])
+    cpm = it.getattr(mcm, "points")
+    okm = all(it.getattr(m, "points") is cpm for m in it.getattr(mcm, "meshes"))
+    bad = []
+    cpo = npmodel.to_obj(cpm)
+    srcs = [(pa, np.array([[0, 1, 2, 3]])), (pb, np.array([[0, 1, 2], [0, 2, 3]])), (pc, np.array([[0, 1, 2, 3]]))]
+    for k, (m, (p0, c0)) in enumerate(zip(it.getattr(mcm, "meshes"), srcs)):
+        cn = npmodel.to_int_array(np.asarray(it.getattr(m, "cells")))
+        for c in range(c0.shape[0]):
+            for j in range(c0.shape[1]):
+                if cn[c, j] >= cpo.shape[0] or any(not is_zero(P(cpo[cn[c, j], i]) - P(p0[c0[c, j], i])) for i in range(2)):
+                    bad.append((k, c, j))
+    col.add("C20.O5", "MeshContainer merge then append", "after merging, the container's own point array is the merged array of its meshes; a following append keeps every cell corner of every mesh",
+            okm and not bad, "mesh/_container.py merge_duplicate_points / append: shared %s, moved corners (mesh, cell, node) %s" % (okm, bad[:4]))
     mc = it.call(MC, [[a]], {})
     it.call_method(mc, "append", [b])
     cp = it.getattr(mc, "points")
